@@ -116,6 +116,17 @@ def args_probe(mode):
         used.variants['alt'] = {'c': 9}
         used.metadata['specs'] = {'a': [0, 1]}
         used.metadata['note'] = 'x'
+        # more use of the library between the two builds: registration in the description library,
+        # a wrapped sub-function with prepended arguments, a definition of the same name as the probe's
+        try:
+            used.add()
+        except Exception:
+            pass
+        exec("def inner(sig, amp=0.25):\n    return sig * amp\n"
+             "def outer(freq=220):\n    Out.kr(0, SynthDef.wrap(inner, None, [SinOsc.kr(freq)]))\n",
+             g2 := dict(ns, SynthDef=SynthDef))
+        SynthDef('pw', g2['outer'])
+        SynthDef('pz', g2['outer'])
     except Exception as e:
         problems.append(f'filling variants/metadata of a built definition raised {type(e).__name__}: {e}')
     again_z = bytes(SynthDef('pz', ns['fz']).as_bytes())
